@@ -487,21 +487,29 @@ def _quiet_loop_errors() -> None:
 
 
 def _merge(fails: list[dict]) -> tuple[list[dict], dict]:
-    """Book-keeping: both error-handling variants report on the same record; union their deviations."""
+    """Book-keeping: both error-handling variants report on the same record.
+
+    The primary variant (fixed = TRUE, the code as it is) names the deviations when it explains the
+    recorded output; otherwise the names come from whichever variant explains it (none: no names).
+    """
     meta: dict = {}
-    merged: dict = {}
     for v in fails:
         if v["clause"] == "_explained":
             m = meta.setdefault(v["tid"], dict(by=[], spec={}))
             if v["ok"]:
                 m["by"].append(v["fixed"])
             m["spec"][str(v["fixed"])] = v.get("spec")
+    merged: dict = {}
+    for v in fails:
+        if v["clause"] == "_explained":
             continue
         key = (v["tid"], v["clause"], json.dumps(v.get("detail"), sort_keys=True, default=str))
+        primary_explains = True in meta.get(v["tid"], dict(by=[]))["by"]
+        devs = set(v.get("deviations", [])) if (v.get("fixed") or not primary_explains) else set()
         if key in merged:
-            merged[key]["deviations"] = sorted(set(merged[key]["deviations"]) | set(v.get("deviations", [])))
+            merged[key]["deviations"] = sorted(set(merged[key]["deviations"]) | devs)
         else:
-            merged[key] = dict(v, deviations=sorted(v.get("deviations", [])))
+            merged[key] = dict(v, deviations=sorted(devs))
     return list(merged.values()), meta
 
 
@@ -648,7 +656,7 @@ def _witness(rep: Report, prop: str, name: str, recs: dict, meta: dict, total: i
     else:
         w = dict(records=0, fallback_used=0, returned_to_primary=0, none_both_missing=0, primary_failed=0, failed_closed=0, failed_error=0,
                  fallback_never_started=0, real_fetcher=0, real_fetcher_fallback_used=0, forced_pumps=0, deferred_deliveries=0,
-                 explained_by_unfixed=0, explained_by_fixed=0, unexplained=0, error_texts=[])
+                 explained_by_dead_error_path_model=0, explained_by_primary_model=0, unexplained=0, error_texts=[])
         for r_ in recs.values():
             w["records"] += len(r_["out"])
             fu = [o["rts"] for o in r_["out"] if o["src"] == "f"]
@@ -664,8 +672,8 @@ def _witness(rep: Report, prop: str, name: str, recs: dict, meta: dict, total: i
             w["forced_pumps"] += r_["forced"]
             w["deferred_deliveries"] += r_["deferred"]
             m = meta.get(r_["id"], dict(by=[]))
-            w["explained_by_unfixed"] += False in m["by"]
-            w["explained_by_fixed"] += True in m["by"]
+            w["explained_by_dead_error_path_model"] += False in m["by"]
+            w["explained_by_primary_model"] += True in m["by"]
             if not m["by"]:
                 w["unexplained"] += 1
                 if len(rep.extra.setdefault("disagreements", [])) < 5:
@@ -699,7 +707,7 @@ def run(prop: str, tier: str) -> int:
             "primary failure = channel closed (ReceiverStoppedError) or a wrapped receiver raising ReceiverError, permanent; fallback streams do not fail",
             "term uses nones_are_zeros=True so that a missing term is visible as 0 next to the reference timestamp in the value; missing = None or NaN",
             "a quarter of the executions use the real FallbackFormulaMetricFetcher (lazy engine over ChannelRegistry channels), the rest a FallbackMetricFetcher over one channel",
-            "known_findings KF-C19-3.. describe the behaviour once the except clauses are repaired; they cannot fire on the unchanged tree",
+            "the trace specification also carries the model of the repaired `except ReceiverError[Any]` defect (fixed = FALSE): records only that variant explains are labelled Dev_ErrorPathDead, for which no known-findings entry exists",
         ]
     for sc in SCOPES[prop][tier]:
         _stage(rep, prop, sc, work, tier)
